@@ -93,7 +93,7 @@ func init() {
 					n, clauses = unsatBiasedCNF(r, 5)
 				} else { // larger, near the threshold: real certificates with several lines
 					n = 5 + r.Intn(4)
-					clauses = gen.RandCNF(r, n, int(4.5*float64(n)), 3, false)
+					clauses = gen.RandKSAT(r, n, int(4.5*float64(n)), 3)
 				}
 				entry := "reader"
 				if r.Intn(2) == 0 {
